@@ -492,8 +492,35 @@ pub fn run_asan(bin: &Path, last_step: u64) -> RunLog {
     log
 }
 
-/// `cargo +nightly miri run` in the crate directory.
+static MIRI_SLOTS: std::sync::Mutex<usize> = std::sync::Mutex::new(0);
+static MIRI_CV: std::sync::Condvar = std::sync::Condvar::new();
+const MIRI_MAX_PARALLEL: usize = 6;
+
+/// `cargo +nightly miri run` in the crate directory. At most MIRI_MAX_PARALLEL run at a
+/// time; a run that produced no step at all (tool start-up failure under load) is
+/// repeated once before it counts as inconclusive.
 pub fn run_miri(crate_dir: &Path, last_step: u64, target_dir: &Path) -> RunLog {
+    {
+        let mut n = MIRI_SLOTS.lock().unwrap();
+        while *n >= MIRI_MAX_PARALLEL {
+            n = MIRI_CV.wait(n).unwrap();
+        }
+        *n += 1;
+    }
+    let mut log = run_miri_once(crate_dir, last_step, target_dir);
+    if log.steps.is_empty() && log.reports.is_empty() && log.inconclusive.is_some() {
+        std::thread::sleep(Duration::from_secs(2));
+        log = run_miri_once(crate_dir, last_step, target_dir);
+    }
+    {
+        let mut n = MIRI_SLOTS.lock().unwrap();
+        *n -= 1;
+        MIRI_CV.notify_one();
+    }
+    log
+}
+
+fn run_miri_once(crate_dir: &Path, last_step: u64, target_dir: &Path) -> RunLog {
     let d = crate_dir.to_path_buf();
     let td = target_dir.to_path_buf();
     let mut log = run_probe(
